@@ -295,6 +295,7 @@ class MKernel:
         self.ptr = {p["d"] for p in fn.params if "*" in fn.type(p["t"])}
         self.role = {}       # loop var decl id -> ROW/K/I/J
         self.acc = set()
+        self.rowvars = {}    # decl id of a per-row result local -> symbol of the output it is stored to
         m = re.search(r"<(\d+),\s*(\d+),", fn.full.rsplit("::", 1)[-1])
         self.tdims = (int(m.group(1)), int(m.group(2))) if m else None
         self.blocked = "bcsr" in fn.name
@@ -366,13 +367,25 @@ class MKernel:
                     return pa[0], pa[1] + self.isym(e["idx"])
         return None
 
+    def deref(self, n):
+        """strip wrappers; a reference local bound to an array element (`BlockType& r_i(br[i])`) denotes that element"""
+        n = strip(n)
+        for _ in range(6):
+            if n.get("k") == "Ref" and n.get("dk") == "local":
+                v = self.loc.var.get(n.get("d"))
+                if v is not None and v.get("ref") and v.get("init") is not None and n.get("d") not in self.loc.written:
+                    n = strip(v["init"])
+                    continue
+            break
+        return n
+
     def address(self, n):
         """Index / Tiny component chain -> (param name, flat address expr, [component symbols])"""
         comps = []
-        n = strip(n)
+        n = self.deref(n)
         while n.get("k") == "OpCall" and n.get("op") == "[]" and len(n.get("a", [])) == 2:
             comps.insert(0, self.isym(n["a"][1]))
-            n = strip(n["a"][0])
+            n = self.deref(n["a"][0])
         if n.get("k") != "Index":
             raise Unknown("`%s` is not an array access" % render(n))
         pa = self.ptr_off(n["b"])
@@ -434,6 +447,8 @@ class MKernel:
         if k == "Ref":
             if n.get("d") in self.acc:
                 return ACC
+            if n.get("d") in self.rowvars:
+                return self.rowvars[n["d"]]        # per-row local that holds the row's result until it is stored
             r = self.loc.resolve(n)
             if r is not n and r.get("k") != "Ref":
                 return self.vsym(r)
@@ -563,6 +578,12 @@ def analyse_matrix_kernel(ck, fn, struct):
         for s, env in out:
             if s.get("k") == "Decl":
                 for v in s["vars"]:
+                    if struct == "Diagonal" and v.get("init") is not None and "K" not in env and "ROW" in env and v["d"] in mk.loc.written and not v.get("ref"):
+                        # `IT_ pos(no_diag); ... pos = col; ... diag[row] = pos;`: a local declared afresh in every row that carries the
+                        # row's result - it stands for diag[row]; its initialiser is the default
+                        mk.rowvars[v["d"]] = sympy.Symbol("diag")
+                        events.append((env, sympy.Symbol("diag"), "=", mk.vsym(v["init"]), v.get("l")))
+                        continue
                     if v.get("init") is not None and "K" not in env:
                         r = mk.loc.resolve(v["init"])
                         if is_zero(r) or (r.get("k") in ("Int", "Float") and float(r["v"]) == 0):
@@ -729,6 +750,13 @@ def analyse_matrix_kernel(ck, fn, struct):
         else:   # Diagonal
             diag = sympy.Symbol("diag")
             default = [e for e in events if e[1] == diag and "K" not in e[0]]
+            if mk.rowvars:
+                # the store-back `diag[row] = pos` must exist, once, behind the search
+                back = [e for e in default if e[3] == diag]
+                default = [e for e in default if e[3] != diag]
+                srch = [k_ for k_, e in enumerate(events) if e[1] == "if"]
+                if len(back) != 1 or not srch or events.index(back[0]) < srch[-1]:
+                    problems.append("the per-row result local is not stored to diag[row] exactly once behind the search (%d stores)" % len(back))
             ifs = [e for e in events if e[1] == "if"]
             if len(default) != 1 or str(default[0][3]) != "row_ptr@rows":
                 problems.append("rows without a diagonal entry must receive row_ptr[rows] (= used_elements) before the search; found %s" % [str(e[3]) for e in default])
@@ -923,7 +951,7 @@ def analyse_product_kernel(ck, fn):
         for env, pos, s in events:
             full = "I" in env and "J" in env
             if s.get("k") == "Decl":
-                if full and inner_sym not in env and seen_inner and any(v["d"] not in loc.written and v.get("init") is not None and
+                if full and inner_sym not in env and seen_inner and any(v["d"] not in loc.written and v.get("init") is not None and not v.get("ref") and
                                                                       any(y.get("k") == "Index" for y in walk(v["init"])) for v in s["vars"]):
                     elem.append(s)          # `const DT_ zij = z[idx];` behind the inner loop: a snapshot of the array element
                     continue
@@ -976,8 +1004,8 @@ def analyse_product_kernel(ck, fn):
             if s.get("k") == "Decl":
                 more = []
                 for v in s["vars"]:
-                    if v["d"] not in loc.written and v.get("init") is not None and any(y.get("k") == "Index" for y in walk(v["init"])):
-                        lets[v["d"]] = sympy.Symbol("LET%d" % v["d"])
+                    if v["d"] not in loc.written and v.get("init") is not None and not v.get("ref") and any(y.get("k") == "Index" for y in walk(v["init"])):
+                        lets[v["d"]] = sympy.Symbol("LET%d" % v["d"])      # a copy: snapshot (a reference is an alias and is resolved at its uses)
                         more.append((lets[v["d"]], vsym_nolet(v["init"]), v.get("l")))
                 return paths(rest, guards, ups + more)
             if s.get("k") != "Assign":
